@@ -223,6 +223,19 @@ def property_feed_shift(ant, p, zl, real_ground=False):
     tol = 1e-9 * max(cn, 1) * max(abs(m0.sources[0].impedance), abs(zl))
     if abs(d - zl) > tol:
         return 'load %r on feed pulse %d shifts the feed impedance by %r' % (zl, p + 1, d)
+    # the same on an object that is taken through a frequency sweep, as `main` does with `--frequency-steps`: at every step the
+    # load is the series element at *that* frequency
+    fr = dict(ant, fresh=True)
+    m4 = antgen.build(fr, media=media()); m4.register_source(Excitation(1 + 0j), p)
+    m4.register_load(Impedance_Load(zl), p)
+    f0 = m4.f
+    for fac in (0.8, 1.25, 1.0):
+        m4.f = f0 * fac
+        m4.compute()
+    d4 = m4.sources[0].impedance - m0.sources[0].impedance
+    if abs(d4 - zl) > tol:
+        return ('load %r on feed pulse %d shifts the feed impedance by %r at the third step of a frequency sweep of one object'
+                % (zl, p + 1, d4))
     # "several loads on one pulse act as their sum", also when it is one load definition that reaches the pulse through
     # several attachments (the pulse itself twice; the whole object / antenna plus the pulse): each attachment is listed
     # as a load of its own and acts in series
@@ -443,7 +456,7 @@ def run(ck):
             ck.violation(v)
     # feed-shift evaluator on a small vetted corpus
     crng = random.Random(424242)
-    for j in range(4 if ck.tier == 'quick' else 30):
+    for j in range(8 if ck.tier == 'quick' else 40):
         ant = antgen.gen_antenna(crng, families=['dipole', 'tee', 'monopole', 'monopole_top'], max_pulses=14)
         m = antgen.build(ant)
         N = len(m.pulses)
